@@ -49,3 +49,11 @@ class Exp:
 
     def run(self):
         return 'exp2'
+
+
+@labtech.task
+class Étude:                  # same non-ASCII identifier as ptasks.Étude
+    p: Any
+
+    def run(self):
+        return 'etude2'
